@@ -383,4 +383,122 @@ theorem capture_session_gen (hl : H.Lawful) (L : SealLaws Pc)
 
 end Session3
 
+/-! ### what came before the interleaved part -/
+section Prefix3
+open TLX.Export TLX.Quic.Session TLX.Cipher TLX.Props.C02Session TLX.Spec.KeySchedules TLX.Props.C02Capstone4
+variable (maskFn : Quic.Dissect.MaskFn) (H : Crypto.Prims) (Pc : Cipher.Prims)
+
+/-- the session object of the flow: its address fields are the flow's, its MAC addresses those of the frame `frF` of the
+    connection's first datagram -/
+structure ConnIs (c : QConn) (o : Opts) (fl : Flow) (frF : Spec.FrameBuild.Frame) : Prop where
+  client : c.client = clientEp fl
+  server : c.server = serverEp fl
+  ipv6 : c.ipv6 = fl.v6
+  opts : c.opts = o
+  smac : c.serverMac = frF.dstMac
+  cmac : c.clientMac = frF.srcMac
+
+/-- a fresh session made of the client's datagram at position `i` of the capture -/
+theorem connIs_new (info : Nat → Pipeline.Info) (o : Opts) (ports : List Int) (hop : o.ports = ports) (fl : Flow)
+    (hcp : ports.contains (fl.clientPort : Int) = false) (pl : Bytes) (i : Nat) (frF : Spec.FrameBuild.Frame) (us : Nat)
+    (hinfo : info i = ⟨0, us, frF.srcMac, frF.dstMac, fl.v6⟩) :
+    ConnIs ((quicMachine maskFn H Pc info).new o (dgPkt fl false pl i)) o fl frF ∧
+    rolesOf o.ports (dgPkt fl false pl i) = (serverEp fl, clientEp fl) := by
+  have hc' : ¬ (fl.clientPort : Int) ∈ ports := by simpa using hcp
+  have hroles : rolesOf o.ports (dgPkt fl false pl i) = (serverEp fl, clientEp fl) := by
+    rw [hop]; simp [rolesOf, dgPkt, clientEp, hc']
+  refine ⟨⟨congrArg Prod.snd hroles, congrArg Prod.fst hroles, ?_, rfl, ?_, ?_⟩, hroles⟩
+  · show (info i).ipv6 = _; rw [hinfo]
+  · simp only [quicMachine, dgPkt, clientEp, hop, hcp, hinfo, Bool.false_eq_true, if_false]
+  · simp only [quicMachine, dgPkt, clientEp, hop, hcp, hinfo, Bool.false_eq_true, if_false]
+
+theorem ownIn_cons_noise (fl : Flow) (kl : List Keylog.Key) (n : Nat) (a : List QEv3) (ev : QEv3) (b : List QEv3)
+    (ha : ∀ x ∈ a, isNoise x = true) :
+    ownIn fl kl n (a ++ ev :: b) = ownIn fl kl (n + a.length) (ev :: b) := by
+  rw [ownIn_append, (ownIn_noise fl kl n a ha).1, List.nil_append]
+
+/-- **the client's first Initial and the server's Retry** through the main loop: ONE session, in the state the second
+    attempt starts from -/
+theorem retry_prefix (hl : H.Lawful) (h32 : H.sha256.outLen = 32) (L : SealLaws Pc) (o : Opts) (ports : List Int)
+    (hop : o.ports = ports) (keys : List Keylog.Key) (fl : Flow) (hne : clientEp fl ≠ serverEp fl)
+    (hcp : ports.contains (fl.clientPort : Int) = false)
+    (cr csel ch sh ca sa : Bytes) (early : Option Bytes) (sel : SuiteSel) (hsel : selectSuite csel = some sel)
+    (hkl : KeylogHas keys cr ch sh ca sa early)
+    (n1 : List QEv3) (tA : Container.Time) (frA : Spec.FrameBuild.Frame) (uA : Udp) (dA : DgH)
+    (n2 : List QEv3) (tR : Container.Time) (frR : Spec.FrameBuild.Frame) (uR : Udp) (r : Retry) (n3 : List QEv3)
+    (hn1 : ∀ ev ∈ n1, isNoise ev = true) (hn2 : ∀ ev ∈ n2, isNoise ev = true) (hn3 : ∀ ev ∈ n3, isNoise ev = true)
+    (cap : List CapEv)
+    (hcapA : cap[n1.length]? = some (QEv3.pre tA frA uA dA).cap)
+    (hdgA : IsDg fl dA.srv frA uA) (hpayA : uA.payload = dgWire H Pc L (dgDcid dA) sel sh ch dA)
+    (htsA : dA.ts = Container.usOfFloat tA.toFloat) (hsrvA : dA.srv = false)
+    (hdgR : IsDg fl true frR uR) (hpayR : uR.payload = r.encode) (hrwf : r.wf) (hrver : r.version = [0, 0, 0, 1])
+    (hrscid : r.scid.length ≤ 63)
+    (hokA : HsDgOk maskFn H Pc L (dgDcid dA) sel sh ch trk0 dA)
+    (htrA : PTrace cr csel {} (insOf dA.pkts)) :
+    let QM := quicMachine maskFn H Pc (capInfo cap)
+    ∃ (s2 : QuicSess QConn),
+      quicRun QM o [] (ownIn fl keys 0 (n1 ++ .pre tA frA uA dA :: (n2 ++ .retry tR frR uR r :: n3))) = [s2] ∧
+      s2.server = serverEp fl ∧ s2.client = clientEp fl ∧ ConnIs s2.st o fl frA ∧ s2.st.raised = none ∧
+      expo s2.st.st.out = [] ∧
+      ∀ kl0 dcid', HsSt H dcid' sel ch sh ca sa false
+        (feedPre H (params H Pc kl0) (noOut s2.st.st) dcid' .v1) (trk0.run dA.pkts).tc (trk0.run dA.pkts).ts
+        (trk0.run dA.pkts).cc (trk0.run dA.pkts).sc {} := by
+  intro QM
+  have hinfoA : capInfo cap n1.length = ⟨0, Container.usOfFloat tA.toFloat, frA.srcMac, frA.dstMac, fl.v6⟩ := by
+    have := capInfo_at cap n1.length _ hcapA
+    simp only [QEv3.cap] at this
+    rw [this, infoOf_dg fl _ frA uA hdgA]; rfl
+  let pA := dgPkt fl false uA.payload n1.length
+  let pR := dgPkt fl true uR.payload (n1.length + 1 + n2.length)
+  obtain ⟨hci, hroles⟩ := connIs_new maskFn H Pc (capInfo cap) o ports hop fl hcp uA.payload n1.length frA _ hinfoA
+  let c0 := QM.new o pA
+  have hfresh := new_fresh maskFn H Pc (capInfo cap) o pA
+  have hown : ownIn fl keys 0 (n1 ++ .pre tA frA uA dA :: (n2 ++ .retry tR frR uR r :: n3)) =
+      [⟨keys, .long (dgDcid dA) .v1, pA⟩, ⟨keys, .long r.dcid .v1, pR⟩] := by
+    rw [ownIn_cons_noise fl keys 0 n1 _ _ hn1, Nat.zero_add]
+    simp only [ownIn, QEv3.own, hsrvA]
+    rw [ownIn_cons_noise fl keys _ n2 _ _ hn2]
+    simp only [ownIn, QEv3.own, (ownIn_noise fl keys _ n3 hn3).1]
+    rfl
+  -- the first attempt
+  have hpreA : HsSt H (dgDcid dA) sel ch sh ca sa trk0.keyed (feedPre H (params H Pc keys) c0.st (dgDcid dA) .v1)
+      trk0.tc trk0.ts trk0.cc trk0.sc trk0.core := by
+    rw [hfresh.1]; exact feedPre_fresh H Pc keys h32 (dgDcid dA) sel ch sh ca sa
+  have hcarA : CarriesH (capInfo cap) c0 (dgWire H Pc L (dgDcid dA) sel sh ch) pA dA :=
+    ⟨hpayA, by show (capInfo cap n1.length).ts = _; rw [hinfoA]; exact htsA.symm,
+      by rw [hci.client, hsrvA]; exact dgPkt_src_client fl hne _ _ _⟩
+  obtain ⟨a1, a2, _, a4, a5, a6, a7, a8, a9⟩ := hs_feed_step maskFn H Pc (capInfo cap) hl keys L (dgDcid dA) cr csel ch sh ca sa
+    early sel hsel hkl trk0 dA hokA [] c0 hfresh.2 hpreA (by rw [List.append_nil]; exact htrA) pA hcarA
+  let c1 := QM.feed c0 keys pA (dgDcid dA) .v1
+  have hc2 : QM.feed c1 keys pR r.dcid .v1 = { c1 with st := stampVer (retryReset (params H Pc keys) c1.st), raised := none } :=
+    retry_feed maskFn H Pc (capInfo cap) keys (dgDcid dA) r hrwf (by rw [hrver]; decide) hrscid c1 a1 a2.inv pR hpayR r.dcid
+  let s1 : QuicSess QConn := ⟨serverEp fl, clientEp fl, c1⟩
+  refine ⟨{ s1 with st := QM.feed c1 keys pR r.dcid .v1 }, ?_, rfl, rfl, ?_, ?_, ?_, ?_⟩
+  · rw [hown]
+    simp only [quicRun, List.foldl_cons, List.foldl_nil]
+    rw [quicHandle_new]
+    have hnew : quicNew QM o keys (.long (dgDcid dA) .v1) pA = s1 := by
+      have hr' : rolesOf o.ports pA = (serverEp fl, clientEp fl) := hroles
+      simp only [quicNew, hr', Hdr.dcid, Hdr.ver, s1]; rfl
+    rw [hnew]
+    exact quicHandle_long _ o keys _ _ pR s1 (dgPkt_matches fl s1 rfl rfl _ _ _)
+  · show ConnIs (QM.feed c1 keys pR r.dcid .v1) o fl frA
+    rw [hc2]
+    exact ⟨a6.trans hci.client, a5.trans hci.server, a9.trans hci.ipv6, a4.trans hci.opts, a7.trans hci.smac,
+      a8.trans hci.cmac⟩
+  · show (QM.feed c1 keys pR r.dcid .v1).raised = none
+    rw [hc2]
+  · show expo (QM.feed c1 keys pR r.dcid .v1).st.out = []
+    rw [hc2]
+    exact expo_none _ a2.inv.out
+  · intro kl0 dcid'
+    show HsSt H dcid' sel ch sh ca sa false (feedPre H _ (noOut (QM.feed c1 keys pR r.dcid .v1).st) dcid' .v1) _ _ _ _ _
+    rw [hc2]
+    show HsSt H dcid' sel ch sh ca sa false (feedPre H _ (noOut (stampVer (retryReset (params H Pc keys) c1.st))) dcid' .v1) _ _ _ _ _
+    rw [noOut_retry]
+    exact after_retry_pre H Pc keys kl0 h32 (dgDcid dA) dcid' sel ch sh ca sa _ (noOut c1.st) _ _ _ _ _
+      (hsSt_noOut H _ _ _ _ _ _ _ _ _ _ _ _ _ a2)
+
+end Prefix3
+
 end TLX.Props.C02All
